@@ -98,10 +98,19 @@ func runC04(p *core.Prog, r *core.Report) {
 		startF, endF := core.FieldOf(rt, "StartBlock"), core.FieldOf(rt, "ExclusiveEndBlock")
 		bsd := p.FuncObj("orchestrator/response", "Stream.BlockScopedData")
 		sends := core.FindInstrs(fn, core.IsCallTo(bsd))
-		if len(sends) != 1 {
-			core.Undecide("sendItems: expected one BlockScopedData send, found %d", len(sends))
+		if len(sends) == 0 {
+			core.Undecide("sendItems: no BlockScopedData send")
 		}
+		// every send site obeys the rules (a second, unguarded send path is a violation, not an unknown shape)
 		sendIn := sends[0]
+		isSend := func(x ssa.Instruction) bool {
+			for _, sd := range sends {
+				if x == sd {
+					return true
+				}
+			}
+			return false
+		}
 		isItemNum := func(v ssa.Value) bool { f, _ := core.LoadedField(core.SkipConv(v)); return f == bn }
 		isF := func(f *types.Var) func(ssa.Value) bool {
 			return func(v ssa.Value) bool { g, _ := core.LoadedField(core.SkipConv(v)); return g == f }
@@ -140,23 +149,32 @@ func runC04(p *core.Prog, r *core.Report) {
 			}
 		})
 		q1 := core.PathQuery{Fn: fn, CutEdge: func(e core.Edge) bool { return containsEdge(startOK, e) }}
-		_, reach1 := q1.CanReach(nil, func(x ssa.Instruction) bool { return x == sendIn })
+		_, reach1 := q1.CanReach(nil, isSend)
 		r.Check(len(startOK) > 0 && !reach1, "C04.R1", "sendItems/start-clip", "an item is sent only if its block number is >= the range start (items below are skipped)", "send reachable without the `item.BlockNum >= StartBlock` edge", p.Pos(sendIn.Pos()))
 		q2 := core.PathQuery{Fn: fn, CutEdge: func(e core.Edge) bool { return containsEdge(endOK, e) }}
-		_, reach2 := q2.CanReach(nil, func(x ssa.Instruction) bool { return x == sendIn })
+		_, reach2 := q2.CanReach(nil, isSend)
 		r.Check(len(endOK) > 0 && !reach2 && endStops, "C04.R1", "sendItems/end-clip", "an item is sent only if its block number is < the exclusive end, and the first item at or beyond the end stops the walk", fmt.Sprintf("send reachable without the `< ExclusiveEndBlock` edge: %v; stop returns: %v", reach2, endStops), p.Pos(sendIn.Pos()))
 		// the loop over the items is ascending and the sent message is built from the current item
-		asc := false
-		for _, l := range core.Loops(fn) {
-			if d, _ := l.InductionDir(); d == 1 && l.Body[sendIn.Block()] {
-				asc = true
+		asc := true
+		for _, sd := range sends {
+			in := false
+			for _, l := range core.Loops(fn) {
+				if d, _ := l.InductionDir(); d == 1 && l.Body[sd.Block()] {
+					in = true
+				}
 			}
+			asc = asc && in
 		}
 		r.Check(asc, "C04.R1", "sendItems/order", "items are sent in the order of the sorted list (ascending range)", "loop is not an ascending range", p.Pos(fn.Pos()))
-		okItem := core.Trace(sendIn.(ssa.CallInstruction).Common().Args[1], 1).HasCall(p.FuncObj(pkgOExec, "toBlockScopedData"))
+		okItem := true
+		okErr := true
+		for _, sd := range sends {
+			okItem = okItem && core.Trace(sd.(ssa.CallInstruction).Common().Args[1], 1).HasCall(p.FuncObj(pkgOExec, "toBlockScopedData"))
+			okErr = okErr && core.ErrorTested(sd)
+		}
 		r.Check(okItem, "C04.R1", "sendItems/payload", "the message sent is toBlockScopedData of the current item", "sent value does not come from toBlockScopedData", p.Pos(sendIn.Pos()))
 		// error of the send ends the walk
-		r.Check(core.ErrorTested(sendIn), "C04.R1", "sendItems/send-error", "a failed send ends the walk with the error", "send error ignored", p.Pos(sendIn.Pos()))
+		r.Check(okErr, "C04.R1", "sendItems/send-error", "a failed send ends the walk with the error", "send error ignored", p.Pos(sendIn.Pos()))
 	})
 
 	// ------------------------------------------------------------------ R2 / R3 / R4 on handleStepNew
